@@ -47,7 +47,7 @@ func TestProbeMissing(t *testing.T) {
 // TestMatcher cross-checks the reference matcher against doublestar.Match on the pattern
 // set; a disagreement is a harness error, not a finding.
 func TestMatcher(t *testing.T) {
-	paths := []string{"a.x", "z.x", "-first.x", ".hid.x", ".env", ".git/a.x", ".git", "src", "src/a.x", "src/.h.x", "src/.d", "src/.d/a.x", "src/sub", "src/sub/b.x", "other.y", "emptyd", "spokfile", "lib/q.x", "s/a.x", "ab.x", "src/sub/deep/c.x"}
+	paths := []string{"[d]raft.x", "q*r.x", "qr.x", "d.x", "draft.x", "src/.x", "src/ax", "b.y", "a.x", "z.x", "-first.x", ".hid.x", ".env", ".git/a.x", ".git", "src", "src/a.x", "src/.h.x", "src/.d", "src/.d/a.x", "src/sub", "src/sub/b.x", "other.y", "emptyd", "spokfile", "lib/q.x", "s/a.x", "ab.x", "src/sub/deep/c.x"}
 	for _, pat := range globPatterns {
 		for _, p := range paths {
 			want, err := doublestar.Match(pat, p)
@@ -328,7 +328,7 @@ func TestGlobEnum(t *testing.T) {
 }
 
 var segNames = []string{"a", "b", "src", "sub", ".h", ".d", "-x", "z", "lib", "Z"}
-var fileNames = []string{"a.x", "b.x", ".h.x", "c.y", "-f.x", "z.x", "m", ".env", "a.x.bak"}
+var fileNames = []string{"a.x", "b.x", ".h.x", "c.y", "-f.x", "z.x", "m", ".env", "a.x.bak", "[d]raft.x", "q*r.x", "dx.x"}
 
 func genGlobCase(t *rapid.T) GlobCase {
 	c := GlobCase{Patterns: globPatterns}
